@@ -822,8 +822,11 @@ def run(ctx):
     expected_calls = sum(g["calls"] for g in grid_info)
     if tot["n"] != expected_calls:
         raise AssertionError(f"enumerated {tot['n']} calls, expected {expected_calls}")
+    from checks import c12b
+    pb = c12b.run_part(ctx)
     return {
-        "evaluations": tot["n"],
+        **pb,
+        "evaluations": tot["n"] + pb["b_generic_calls"],
         "distinct_nontrivial": tot["nontrivial"],
         "rule": "all ordered same-kind pairs (s,t) of each grid's pair universe x every acyclic partial "
                 "solution of the grid; non-trivial = s != t, an inference variable occurs in s or t, and the "
@@ -851,6 +854,9 @@ def _tup(x):
 
 
 def replay(ctx, item):
+    if item.get("part") == "b":
+        from checks import c12b
+        return c12b.replay(ctx, item)
     s, t = _tup(item["s"]), _tup(item["t"])
     sig = tuple((b[0], _tup(b[1])) for b in item["sigma"])
     findings, info = evaluate(s, t, sig)
